@@ -260,10 +260,22 @@ func derivations(thorough bool, f func(name string, ss []string)) {
 			}
 		}
 	}
+	// generated words (wordgen.go) at the main word positions
+	for _, wd := range generatedWords() {
+		f("WG", []string{"a", wd})
+		f("WG", []string{wd, "a"})
+		f("WG", []string{"a", ">", wd})
+		f("WG", []string{"case", wd, "in", wd, ")", "a", ";;", "esac"})
+		f("WG", []string{"for", "x", "in", wd, ";", "do", "a", ";", "done"})
+	}
 	// word menu at every word position
 	var menu []string
+	gen := map[string]bool{}
+	for _, t := range generatedWords() {
+		gen[t] = true
+	}
 	for t, s := range symTable {
-		if s.kind == kWord {
+		if s.kind == kWord && !gen[t] {
 			menu = append(menu, t)
 		}
 	}
